@@ -753,6 +753,12 @@ def termbmc_units(tier, alphs=("dt", "iri")):
                     fx = [f] if tier == "quick" else [f]
                     out.append(U(f"termbmc:{integ}:{alph}:t{'-'.join(map(str, sizes))}:two{int(two)}:f{f}", "termbmc", "termbmc",
                                  dict(integ=integ, alph=alph, K=K, sizes=sizes, two=two, fixed=fx), timeout=900 if tier == "quick" else 3600))
+    # longer datatype histories (an entry evicted and re-entered at another id): four fixed uses, then two symbolic ones
+    if "dt" in alphs:
+        for integ in (("generic",) if tier == "quick" else ("generic", "rdflib")):
+            for dsz in (2, 3):
+                out.append(U(f"termbmc:{integ}:dt6:d{dsz}:long", "termbmc", "termbmc",
+                             dict(integ=integ, alph="dt6", K=6, sizes=[8, 2, dsz], two=False, fixed=[0, 1, 2, 3]), timeout=900))
     # three table-using terms per statement: fill-to-evict transition INSIDE one statement (names table of 3 and 2)
     for integ in ("generic", "rdflib"):
         for n in (3, 2):
